@@ -76,6 +76,25 @@ def decompose_unmarshal(T, x, defs, env):
     return None
 
 
+def deep_rebuild(T, x, defs, env, depth=0):
+    """The composite rebuilt from the *leaves* up: every composite level -- at every depth -- is taken apart by the harness,
+    only members that are not composite (scalars, enums, literals, proper unions) go through a routine of the library.
+    Raises whatever a leaf routine raises."""
+    import typelib
+    if depth < 12:
+        t = strip(T)
+        if t["k"] == "union":
+            nn = [m for m in t["xs"] if not (m["k"] == "prim" and m["n"] == "NoneType")]
+            if len(nn) == 1 and len(t["xs"]) == 2:                  # Optional[X]: None stays None, anything else is an X
+                return None if x is None else deep_rebuild(nn[0], x, defs, env, depth + 1)
+        else:
+            du = decompose_unmarshal(T, x, defs, env)
+            if du is not None:
+                ms, ins, rebuild = du
+                return rebuild([deep_rebuild(m, i, defs, env, depth + 1) for m, i in zip(ms, ins)])
+    return typelib.unmarshal(env.annotation(T), x)
+
+
 def decompose_marshal(T, v, defs, env):
     T = strip(T)
     k = T["k"]
@@ -192,6 +211,12 @@ def collect(ctx: Ctx, profile: str):
                     events.append({"ev": "memberwise", "T": T, "whole": whole_u, "parts": [p[0] for p in parts] or [{"k": "ok", "r": {"k": "none", "cls": "NoneType"}}],
                                    "rebuilt": rebuilt})
                     meta.append(("unmarshal", sname, j, pas, repr(x)[:80]))
+                    if sname == "wire" and whole_u["k"] == "ok":
+                        # the same, rebuilt from the leaves up (every nesting level taken apart by the harness)
+                        deep, _ = vs.out_of(deep_rebuild, T, wv, defs, env)
+                        events.append({"ev": "memberwise", "T": T, "whole": whole_u, "parts": [{"k": "ok", "r": {"k": "none", "cls": "NoneType"}}],
+                                       "rebuilt": deep})
+                        meta.append(("unmarshal", "wire:from_leaves", j, pas, repr(x)[:80]))
     return events, meta, model, len(composites)
 
 
